@@ -377,9 +377,8 @@ def check_monotone(ts, cfgs, docs):
                     fails.append((None, "key %r of %s present at threshold %s, absent at %s" % (k, label, thr[j], thr[i])))
             for f, v in facts[j].items():
                 if f in facts[i] and facts[i][f] != v:
-                    if f[3] == "NONLITERAL":
-                        continue       # its figure is a sum over the surviving candidates (C01 findings)
-                    fails.append((None, "figure of %r is %r at threshold %s and %r at %s" % (f, v, thr[j], facts[i][f], thr[i])))
+                    rc = "rc_nonliteral_sum_of_variants" if f[3] == "NONLITERAL" else None
+                    fails.append((rc, "figure of %r is %r at threshold %s and %r at %s" % (f, v, thr[j], facts[i][f], thr[i])))
     # the extremes
     inst, n_of, exp, nl = expected_keys(ts, cfgs[0])
     for i, t in enumerate(thr):
